@@ -19,6 +19,9 @@ CONSTANTS
   MaxAcq = 2
   EarlyBook = FALSE
   TrustSource = FALSE
+  EarlyNote = FALSE
+  StaleKeys = FALSE
+  WithNotes = TRUE
 INVARIANT TypeOK
 INVARIANT Unforgeable
 INVARIANT HonestSignOnlyBySend
@@ -28,4 +31,6 @@ INVARIANT OverlaySeparation
 INVARIANT HonestAttribution
 INVARIANT BookLegit
 INVARIANT BookNoKeyEmpty
+INVARIANT NotesLegit
+INVARIANT KeyResolution
 PROPERTY RejectInert
